@@ -113,3 +113,73 @@ Example time_nonvacuous :
   parse_time [50;51;58;53;57;58;53;57;46;57;57;57;57;57;57;53;90]%N    (* "23:59:59.9999995Z" *)
   = Ok (mkTod 0 0 0 0, TzUtc).
 Proof. reflexivity. Qed.
+
+(* ------------------------------------------------------------------ *)
+(* the scanner IS the regular expressions of the source                *)
+(* (AST regenerated from suds/sax/date.py by tools/tables_c06.py into  *)
+(*  Gen/C06Tables.v; semantics + matcher: C06/Regex.v; lemmas:         *)
+(*  C06/RegexProofs.v)                                                 *)
+(* ------------------------------------------------------------------ *)
+From SV Require Import C06.Regex C06.RegexScan C06.RegexProofs Gen.C06Tables.
+
+(* the executable backtracking matcher (Python's order: greedy first, left
+   alternative first) returns a match of the denotational semantics, and None
+   exactly when the semantics has no match -- for every regex and string *)
+Theorem regex_matcher_correct : forall r s,
+  match exec_match r s with
+  | Some e => re_matches r s e
+  | None => forall e, ~ re_matches r s e
+  end.
+Proof. exact exec_match_correct_l. Qed.
+Print Assumptions regex_matcher_correct.
+
+(* For ALL strings: scan_date answers Some fields iff the regenerated _RE_DATE
+   matches with exactly those capture groups (read as _date_from_match and
+   _tzinfo_from_match read them), the captures being forced (one match at most,
+   so the backtracking order cannot matter), and None iff it does not match. *)
+Theorem scanner_is_regex_date : forall s,
+  match scan_date s with
+  | Some f => exists e, re_matches re_date s e /\ date_fields_of_caps e = f /\
+                        forall e', re_matches re_date s e' -> e' = e
+  | None => forall e, ~ re_matches re_date s e
+  end.
+Proof. exact scanner_is_regex_date_l. Qed.
+Print Assumptions scanner_is_regex_date.
+
+Theorem scanner_is_regex_time : forall s,
+  match scan_time s with
+  | Some f => exists e, re_matches re_time s e /\ time_fields_of_caps e = f /\
+                        forall e', re_matches re_time s e' -> e' = e
+  | None => forall e, ~ re_matches re_time s e
+  end.
+Proof. exact scanner_is_regex_time_l. Qed.
+Print Assumptions scanner_is_regex_time.
+
+Theorem scanner_is_regex_datetime : forall s,
+  match scan_datetime s with
+  | Some f => exists e, re_matches re_datetime s e /\ datetime_fields_of_caps e = f /\
+                        forall e', re_matches re_datetime s e' -> e' = e
+  | None => forall e, ~ re_matches re_datetime s e
+  end.
+Proof. exact scanner_is_regex_datetime_l. Qed.
+Print Assumptions scanner_is_regex_datetime.
+
+(* hence what pattern.match(s) computes (first match in backtracking order,
+   groups read by name) is the scanner's answer, for all strings *)
+Theorem scanner_is_python_match : forall s,
+  option_map date_fields_of_caps (exec_match re_date s) = scan_date s /\
+  option_map time_fields_of_caps (exec_match re_time s) = scan_time s /\
+  option_map datetime_fields_of_caps (exec_match re_datetime s) = scan_datetime s.
+Proof. exact scanner_is_python_match_l. Qed.
+Print Assumptions scanner_is_python_match.
+
+Example regex_nonvacuous :
+  (* "2000-1-01T1:02:03.5-5:30" followed by a newline *)
+  let s := [50;48;48;48;45;49;45;48;49;84;49;58;48;50;58;48;51;46;53;45;53;58;51;48;10]%N in
+  exec_groups re_datetime s =
+    Some [Some [50;48;48;48]; Some [49]; Some [48;49]; Some [49]; Some [48;50]; Some [48;51];
+          Some [53]; Some [45]; Some [53]; Some [51;48]; None]%N /\
+  scan_datetime s = Some (mkDF [50;48;48;48] [49] [48;49], mkTF [49] [48;50] [48;51] (Some [53]),
+                          ZOff true [53] (Some [51;48]))%N /\
+  exec_match re_date s = None /\ scan_date s = None.
+Proof. repeat split; reflexivity. Qed.
